@@ -263,7 +263,7 @@ def C09_5(ctx, facts):
     ctx.check(not bad, "accept-path|no-handshake", "no TLS handshake / stream I/O is reachable from any poll_accept (%d functions examined)" % len(seen),
               "the accept path performs a handshake: %s" % [(g.nkey, why) for (g, c, why) in bad[:3]], bad[0][1].where() if bad else None)
     if ctx.cur_config in ("tls", "mocks", "aws"):
-        ta = facts.unit(facts.method("server::conn::tls::acceptor::TlsAcceptor", "Accept", "poll_accept"))
+        ta = facts.unit(facts.method("server::conn::tls::acceptor::TlsAcceptor", "Accept", "poll_accept"), expand=True)
         acc = [c for c in ta.calls() if norm(c.name).endswith("TlsAcceptor::accept")]
         ctx.check(len(acc) == 1, "TlsAcceptor::poll_accept|lazy", "TlsAcceptor::poll_accept only creates the tokio_rustls Accept future and returns it unpolled inside TlsStream",
                   "TlsAcceptor::poll_accept does not create exactly one Accept future")
